@@ -1,4 +1,4 @@
-import Lt.Resp
+import RedisGoModel.Resp.Resp
 /-! Prototype for C03: an independent RESP2 reply decoder inverts the reply encoder (`ToBytes`) for every reply
     whose simple strings / errors contain no CR or LF; bulk payloads are unrestricted. -/
 namespace Resp
